@@ -74,29 +74,78 @@ theorem reachable_rejects {D : Type} (hc : HC D) (fl : Bool) (s : St D) (hcl : S
   rw [(run_frame hc fl os s).2 m hms]; exact hms
 
 /-- **identifier (hence job directory) stays what it was**: if `n` is sealed, every operation — and every
-    sequence of operations — leaves the raw and the full identifier of `n` (specification functions
-    `rawId` / `fullId` of the current graph; the job directory is `<workdir>/jobs/<task id>/<fullId>`)
-    unchanged, and `n` stays sealed. Holds for every hash `hc`. -/
+    sequence of operations — that leaves the class-level default objects alone (`DefaultsFrame`: every
+    configuration occurring in a declared default, and whatever its identifier depends on, is the same node
+    afterwards; `seal` never visits these objects, so they are *not* frozen by it) leaves the raw and the full
+    identifier of `n` (specification functions `rawId` / `fullId` of the current graph; the job directory is
+    `<workdir>/jobs/<task id>/<fullId>`) unchanged, and `n` stays sealed. Holds for every hash `hc`.
+    Without the hypothesis the statement is false since identifiers compare values with the default objects:
+    `default_mutation_changes_sealed_identifier` below. -/
 theorem sealed_ident_stable {D : Type} (hc : HC D) (fl : Bool) (s : St D) (hcl : SealedClosed s.g) (n : Nat)
     (hn : (s.g.node n).sealed = true) :
+    (∀ o : Op, DefaultsFrame s.g (step hc fl s o).1.g →
+        rawId hc (step hc fl s o).1.g n = rawId hc s.g n ∧ fullId hc (step hc fl s o).1.g n = fullId hc s.g n
+        ∧ ((step hc fl s o).1.g.node n).sealed = true) ∧
+    (∀ os : List Op, DefaultsFrame s.g (run hc fl s os).g →
+        rawId hc (run hc fl s os).g n = rawId hc s.g n ∧ fullId hc (run hc fl s os).g n = fullId hc s.g n
+        ∧ ((run hc fl s os).g.node n).sealed = true) :=
+  ⟨fun o hdf => frame_ident hc hcl (step_frame hc fl s o) hdf hn,
+   fun os hdf => frame_ident hc hcl (run_frame hc fl os s) hdf hn⟩
+
+/-- the statement as it was before defaults could be configuration objects: when no declared default
+    contains a configuration (`NoCfgDefaults`), no hypothesis on the operations is needed. -/
+theorem sealed_ident_stable_noCfgDefaults {D : Type} (hc : HC D) (fl : Bool) (s : St D) (hcl : SealedClosed s.g)
+    (hnd : NoCfgDefaults s.g) (n : Nat) (hn : (s.g.node n).sealed = true) :
     (∀ o : Op, rawId hc (step hc fl s o).1.g n = rawId hc s.g n ∧ fullId hc (step hc fl s o).1.g n = fullId hc s.g n
         ∧ ((step hc fl s o).1.g.node n).sealed = true) ∧
     (∀ os : List Op, rawId hc (run hc fl s os).g n = rawId hc s.g n ∧ fullId hc (run hc fl s os).g n = fullId hc s.g n
         ∧ ((run hc fl s os).g.node n).sealed = true) :=
-  ⟨fun o => frame_ident hc hcl (step_frame hc fl s o) hn, fun os => frame_ident hc hcl (run_frame hc fl os s) hn⟩
+  ⟨fun o => (sealed_ident_stable hc fl s hcl n hn).1 o (.of_noCfgDefaults hnd _),
+   fun os => (sealed_ident_stable hc fl s hcl n hn).2 os (.of_noCfgDefaults hnd _)⟩
+
+/-- `m` is a default object, or something the identifier of a default object depends on. -/
+def DefNode (g : Graph) (m : Nat) : Prop := ∃ x a r, a ∈ (g.node x).args ∧ r ∈ dfltRefs a ∧ IdReach g r m
+
+/-- a mutation of a configuration that is not a default object (nor referenced by one), and every identifier
+    request, leaves the default objects alone. -/
+theorem step_defaultsFrame {D : Type} (hc : HC D) (fl : Bool) (s : St D) (o : Op)
+    (ho : match o with
+      | .set n _ _ | .setMeta n _ | .addPretask n _ => ¬ DefNode s.g n
+      | .sealOp k => ∀ m, DefNode s.g m → (sealFrom s.g k).node m = s.g.node m
+      | _ => True) :
+    DefaultsFrame s.g (step hc fl s o).1.g := by
+  intro x a r m ha hr hrm
+  have hm : DefNode s.g m := ⟨x, a, r, ha, hr, hrm⟩
+  cases o with
+  | sealOp k => exact ho m hm
+  | reqRaw k => simp only [step, Sealing.reqRaw_g]
+  | reqFull k => simp only [step, Sealing.reqFull_g]
+  | set k name v =>
+    simp only [step]; split
+    · rfl
+    · exact node_setNode_ne (fun e => ho (e ▸ hm))
+  | setMeta k b =>
+    simp only [step]; split
+    · rfl
+    · exact node_setNode_ne (fun e => ho (e ▸ hm))
+  | addPretask k p =>
+    simp only [step]; split
+    · rfl
+    · exact node_setNode_ne (fun e => ho (e ▸ hm))
 
 /-- the same along a whole history: start from a well-formed graph with nothing sealed, run valid operations
     `os₁` (constructing, sealing, requesting, mutating); whatever is sealed then keeps its identifiers through
-    any continuation `os₂`. -/
+    any continuation `os₂` that leaves the default objects alone. -/
 theorem history_ident_stable {D : Type} (hc : HC D) (fl : Bool) (s₀ : St D) (hwf : WF s₀.g)
     (h0 : ∀ n, (s₀.g.node n).sealed = false) (os₁ os₂ : List Op) (hv : ∀ o ∈ os₁, ValidOp s₀.g.size o) (n : Nat)
-    (hn : ((run hc fl s₀ os₁).g.node n).sealed = true) :
+    (hn : ((run hc fl s₀ os₁).g.node n).sealed = true)
+    (hdf : DefaultsFrame (run hc fl s₀ os₁).g (run hc fl (run hc fl s₀ os₁) os₂).g) :
     let s₁ := run hc fl s₀ os₁
     let s₂ := run hc fl s₁ os₂
     rawId hc s₂.g n = rawId hc s₁.g n ∧ fullId hc s₂.g n = fullId hc s₁.g n ∧ (s₂.g.node n).sealed = true := by
   intro s₁ s₂
   have hinv := run_inv hc fl os₁ s₀ (unsealed_invariant _ hwf h0) hv
-  exact frame_ident hc hinv.2 (run_frame hc fl os₂ s₁) hn
+  exact frame_ident hc hinv.2 (run_frame hc fl os₂ s₁) hdf hn
 
 /-- **the identifier the implementation returns stays what it was** (cache side, independent of the hash and
     of the loop flag): once the identifiers of a sealed `n` have been requested (as `submit` does), every
@@ -118,6 +167,40 @@ theorem sealed_returned_ident_stable {D : Type} (hc : HC D) (fl : Bool) (s : St 
   refine ⟨reqFull_hit hc fl s' n hs' hraw' hfull', ?_, ?_⟩
   · rw [reqRaw_hit hc fl s' n hs' hraw']
   · rw [reqRaw_hit hc fl s' n hs' hraw', reqRaw_hit hc fl r.1 n hs1 hraw]
+
+/-! ### the default objects are not frozen (witness for the hypothesis `DefaultsFrame`)
+
+    `class B(Config): k: Param[int]`, `class A(Config): x: Param[B] = B(k=1)`.  Node 0 is `A()`, node 2 its value
+    for `x` (the clone made by `__init__`), node 1 the default object of `A.x`.  Sealing node 0 freezes nodes 0 and
+    2 — the walk never visits the default object —, and `A.x`'s default can still be mutated: the specification
+    identifier of the sealed `A()` changes (the parameter `x` is no longer "at its default").  Replayed on the
+    real code: after `A.__xpmtype__.arguments["x"].default.k = 2` a sealed `A()` whose identifier had not been
+    requested yet gets another identifier than before (one that was requested keeps returning the cached value:
+    `sealed_returned_ident_stable`). -/
+def toyHC : HC Nat :=
+  { H := fun l => l.foldl (fun a b => (a * 31 + b + 1) % 1000003) 7, emb := fun d => [256 + d], le := fun a b => a ≤ b }
+
+def gDefault : Graph := { nodes := [
+  { typeId := [65], args := [{ name := [120], required := false, default := some (.ref 1), value := .ref 2 }] },
+  { typeId := [66], args := [{ name := [107], value := .int 1 }] },
+  { typeId := [66], args := [{ name := [107], value := .int 1 }] }] }
+
+def sDefault : St Nat := { g := sealFrom gDefault 0, c := Caches.empty }
+def sDefault' : St Nat := (step toyHC true sDefault (.set 1 [107] (.int 2))).1
+
+theorem default_mutation_changes_sealed_identifier :
+    ((List.range 3).map (fun m => (sDefault.g.node m).sealed) = [true, false, true]) ∧
+    (match (step toyHC true sDefault (.set 1 [107] (.int 2))).2 with | .ok => true | _ => false) = true ∧
+    rawId toyHC sDefault'.g 0 ≠ rawId toyHC sDefault.g 0 ∧ fullId toyHC sDefault'.g 0 ≠ fullId toyHC sDefault.g 0 := by
+  decide
+
+/-- on the same graph, a request (or a mutation of a configuration that is not a default object) satisfies
+    `DefaultsFrame` (`step_defaultsFrame`), so `sealed_ident_stable` applies. -/
+example : DefaultsFrame sDefault.g (step toyHC true sDefault (.reqFull 0)).1.g :=
+  step_defaultsFrame toyHC true sDefault (.reqFull 0) trivial
+
+example : SealedClosed sDefault.g ∧ (sDefault.g.node 0).sealed = true :=
+  ⟨SealedClosed_of_closedB (by decide), by decide⟩
 
 /-! ### the hypotheses are satisfiable (`sealDemo`: a graph with a list value, a pre-task and a task cycle) -/
 
